@@ -121,6 +121,34 @@ def run(ctx):
                "each page-table page must be emitted (length 0) exactly once, right after that table's data pages and "
                "before moving on to the next table: otherwise the table page is never returned (or returned twice)")
 
+    # ---------------------------------------------------------------- R2g/h the byte count has one writer
+    # the entry's size is what lays the pages out again in append_to_iovec: it is advanced in one place (sync, relative to the
+    # sync point) and nowhere else, and overflow() brings it up to date before it switches pages
+    def is_log_size(d):
+        d = strip_cast(d)
+        return isinstance(d, dict) and d.get("k") == "f" and d.get("n") == "size" and \
+            isinstance(strip_cast(d.get("b")), dict) and strip_cast(d.get("b")).get("n") == "_log"
+    writers = {}
+    for fn in fb.find(pred=lambda f: f.record == BUF and f.has_cfg()):
+        for _, ev in fn.all_events():
+            if ev["e"] == "asg" and is_log_size(ev.get("lhs")):
+                writers.setdefault(fn.name, []).append(ev)
+    adders = sorted(n for n, evs in writers.items() if any(e.get("op") != "=" or const_val(e.get("rhs")) != 0 for e in evs))
+    ctx.ob("C20.R2g", "LogStreamBuffer: writers of the entry size", adders == ["sync"], "",
+           "the number of bytes of an entry must be accumulated in exactly one function (sync, which advances it relative to the "
+           "sync point); found accumulating writers %s - a second place that adds to it counts bytes twice after a mid-entry flush, "
+           "and the scatter list then describes pages that were never filled" % adders, site="LogStreamBuffer@size-writers")
+    for fn in fb.find(pred=lambda f: f.record == BUF and f.name == "overflow" and f.has_cfg()):
+        ig = IG(fn, inline=nin)
+        live = ig.live_nodes()
+        syncs = list(L.call_nodes(ig, name="sync", live=live))
+        if ctx.named("C20.R2h", syncs, "sync", r"LogStreamBuffer") is None:
+            continue
+        moves = [n for n in ig.ev_nodes() if n.id in live and ((n.ev["e"] == "call" and n.ev.get("name") == "setp") or
+                 (n.ev["e"] == "asg" and strip_cast(n.ev.get("lhs", {})).get("n") == "_sync_point"))]
+        ctx.ob("C20.R2h", L.short(fn), bool(syncs) and bool(moves) and all(ig.dominated_by(m, syncs) for m in moves), fn.loc,
+               "overflow() must bring the byte count up to date (sync) before it moves the put area and the sync point to the new page")
+
     # ---------------------------------------------------------------- R2 stream buffer
     for fn in fb.find(pred=lambda f: f.record == BUF and f.name == "overflow" and f.has_cfg()):
         inst = L.short(fn)
